@@ -183,7 +183,7 @@ def shorter(spec):
 
 @st.composite
 def history(draw):
-    h, w = draw(st.one_of(st.integers(1, 6), st.integers(1, 6), st.sampled_from([10, 24, 6]))), draw(st.one_of(st.integers(1, 8), st.integers(1, 8), st.sampled_from([10, 40, 6])))
+    h, w = draw(st.one_of(st.integers(1, 6), st.integers(1, 6), st.sampled_from([10, 24, 6]))), draw(st.one_of(st.integers(1, 8), st.integers(1, 8), st.sampled_from([10, 40, 6, 300])))
     case = {"h": h, "w": w, "hide_cursor": draw(st.booleans()), "junk": draw(st.integers(0, 20)), "reuse": draw(st.sampled_from([False, False, True])), "steps": []}
     same_cursor = draw(st.booleans())
     last_cur = None
